@@ -26,7 +26,7 @@ class Obligation:
 
 class Contract:
     def __init__(self, qual, params=None, requires=(), ensures=(), raises=None, modifies=None, loops=None, result=None,
-                 props=(), pure=False, ghost=None, trusted=False, no_raise=True, old_names=None, note=""):
+                 props=(), pure=False, ghost=None, trusted=False, no_raise=True, old_names=None, note="", lemmas=(), allocates=False):
         self.qual = qual
         self.params = params or {}          # name -> type descriptor
         self.requires = list(requires)      # [expr str]
@@ -40,6 +40,8 @@ class Contract:
         self.trusted = trusted              # assumed (A): external function, no body obligations
         self.ghost = ghost or {}
         self.note = note
+        self.allocates = allocates          # the callee may allocate objects (all field arrays are re-framed at call sites)
+        self.lemmas = list(lemmas)          # [(lemma name, instance expr)]: instances of separately proved lemmas, assumed at entry
 
 
 class Ctx:
@@ -106,6 +108,58 @@ def mk_heap(ctx):
     return h
 
 
+def heap_typing(ctx, heap):
+    """language-level heap invariants: no dangling references (reachability-closed allocation), list lengths >= 0,
+    enum-typed fields hold members of their enum.  Re-assumed for every havocked heap."""
+    out = []
+    o, k = z3.Int("o!ht"), z3.Int("k!ht")
+    al = heap["@alloc"]
+    out.append(z3.ForAll([o], heap["@len"][o] >= 0, patterns=[heap["@len"][o]]))
+    seen = set()
+    for cls, fields in ctx.schema.items():
+        for f, t in fields.items():
+            if f in seen:
+                continue
+            seen.add(f)
+            base, arg, opt = parse_type(t)
+            live = z3.And(al[o], z3.Not(heap[f + "?"][o])) if opt else al[o]
+            if base == "enum":
+                out.append(z3.ForAll([o], z3.Implies(live, z3.And(0 <= heap[f][o], heap[f][o] < len(ctx.enums[arg]))), patterns=[heap[f][o]]))
+            elif base == "ref":
+                out.append(z3.ForAll([o], z3.Implies(live, al[heap[f][o]]), patterns=[heap[f][o]]))
+            elif base == "list":
+                out.append(z3.ForAll([o], z3.Implies(live, al[heap[f][o]]), patterns=[heap[f][o]]))
+                eb = parse_type(arg)[0]
+                if eb in ("ref", "list"):
+                    lst = heap[f][o]
+                    out.append(z3.ForAll([o, k], z3.Implies(z3.And(live, 0 <= k, k < heap["@len"][lst]), al[heap["@el"][lst][k]]),
+                                         patterns=[heap["@el"][heap[f][o]][k]]))
+    return out
+
+
+_hq_cache = {}
+
+
+def _has_quant(t):
+    i = t.get_id()
+    if i in _hq_cache:
+        return _hq_cache[i]
+    r = False
+    stack = [t]
+    seen = set()
+    while stack:
+        x = stack.pop()
+        if x.get_id() in seen:
+            continue
+        seen.add(x.get_id())
+        if z3.is_quantifier(x):
+            r = True
+            break
+        stack.extend(x.children())
+    _hq_cache[i] = r
+    return r
+
+
 def conjuncts(e):
     """split a Python `a and b and c` expression string into top-level conjunct strings"""
     node = ast.parse(e, mode="eval").body
@@ -144,10 +198,13 @@ class Exec:
     def feasible(self, st, extra=None):
         if not self.feasibility:
             return True
+        # pruning only: quantifier-free part of the path condition (an over-approximation of feasibility)
         s = z3.Solver()
-        s.set("timeout", 2000)
-        s.add(*st.pc)
-        if extra is not None:
+        s.set("timeout", 500)
+        for p_ in st.pc:
+            if not _has_quant(p_):
+                s.add(p_)
+        if extra is not None and not _has_quant(extra):
             s.add(extra)
         return s.check() != z3.unsat
 
@@ -740,6 +797,8 @@ class Exec:
             n = f.id
             if n in self.ctx.specfuns and n not in st.env:
                 return self.ctx.specfuns[n](self, st, e)
+            if n == "__newlist__":
+                return self.new_list(st, "?", 0)
             if n == "abs":
                 v = self.ev(e.args[0], st)
                 self.need(v, st)
@@ -985,10 +1044,44 @@ class Exec:
 
     def stmt(self, x, st):
         self.cur_line = getattr(x, "lineno", self.cur_line)
+        if isinstance(x, (ast.Assign, ast.Return, ast.Expr, ast.AugAssign)):
+            pre, x2 = self.desugar_comprehensions(x)
+            if pre:
+                return self.block(pre + [x2], st)
         m = getattr(self, "st_" + type(x).__name__, None)
         if m is None:
             raise VCError(f"statement {type(x).__name__} outside subset at line {x.lineno}")
         return m(x, st)
+
+    def desugar_comprehensions(self, x):
+        """[f(y) for y in L] with a user-level call inside  ==>  tmp = []; for y in L: tmp.append(f(y))
+        (the synthesised loop takes its invariant from the contract like any other loop)"""
+        pre = []
+        ex = self
+
+        class T(ast.NodeTransformer):
+            def visit_ListComp(self, n):
+                self.generic_visit(n)
+                has_call = any(ex.is_user_call(c) for c in ast.walk(n.elt)) or any(ex.is_user_call(c) for g in n.generators for c in ast.walk(g.iter) if c is not g.iter and False)
+                if not has_call or len(n.generators) != 1 or n.generators[0].ifs and False:
+                    return n
+                g = n.generators[0]
+                tmp = f"@comp{n.lineno}_{n.col_offset}"
+                body = ast.Expr(value=ast.Call(func=ast.Attribute(value=ast.Name(id=tmp, ctx=ast.Load()), attr="append", ctx=ast.Load()), args=[n.elt], keywords=[]))
+                if g.ifs:
+                    test = g.ifs[0] if len(g.ifs) == 1 else ast.BoolOp(op=ast.And(), values=list(g.ifs))
+                    body = ast.If(test=test, body=[body], orelse=[])
+                loop = ast.For(target=g.target, iter=g.iter, body=[body], orelse=[])
+                init = ast.Assign(targets=[ast.Name(id=tmp, ctx=ast.Store())], value=ast.Call(func=ast.Name(id="__newlist__", ctx=ast.Load()), args=[], keywords=[]))
+                for node in (init, loop):
+                    ast.copy_location(node, n)
+                    ast.fix_missing_locations(node)
+                pre.extend([init, loop])
+                return ast.copy_location(ast.Name(id=tmp, ctx=ast.Load()), n)
+        if not any(isinstance(n, ast.ListComp) for n in ast.walk(x)):
+            return [], x
+        x2 = T().visit(_copy.deepcopy(x))
+        return pre, x2
 
     # -- user-call hoisting ------------------------------------------------------------
     def user_calls(self, node):
@@ -1026,7 +1119,7 @@ class Exec:
         if isinstance(f, ast.Name):
             return (f.id in self.ctx.sources.classes and f.id not in self.ctx.enums) or f.id in self.ctx.sources.functions or f.id in self.local_defs
         if isinstance(f, ast.Attribute):
-            if f.attr in self.ctx.method_names or f.attr in LIST_METHODS:
+            if f.attr in self.ctx.method_names or f.attr in LIST_METHODS or f.attr == "__class__":
                 return True
             if isinstance(f.value, ast.Name) and f.value.id == "copy" and f.attr == "copy":
                 return True
@@ -1406,6 +1499,8 @@ class Exec:
                 h.heap[a] = fresh(a, h.heap[a].sort())
             r = fresh("r")
             h.pc.append(z3.ForAll([r], z3.Implies(entry_heap["@alloc"][r], h.heap["@alloc"][r]), patterns=[h.heap["@alloc"][r]]))
+        if lists or fields:
+            h.pc += heap_typing(self.ctx, h.heap)
         i = fresh("i") if isfor else None
         terms, hi_ = inv_terms(h, i)
         hi_.meta = dict(st.meta)
